@@ -49,7 +49,7 @@ func (c C09Case) nss() (reader, owner string) {
 	return "a", "b"
 }
 
-var c09Sites = []string{"auth-tls-secret", "secure-crt-secret", "secure-verify-ca-secret", "auth-secret", "auth-url", "tls-secret", "gateway-certref"}
+var c09Sites = []string{"auth-tls-secret", "secure-crt-secret", "secure-verify-ca-secret", "auth-secret", "auth-url", "tls-secret", "gateway-certref", "gateway-backendref"}
 
 // kind (global key) that opens each site, per the documentation.
 var c09KindOf = map[string]string{
@@ -60,6 +60,7 @@ var c09KindOf = map[string]string{
 	"auth-url":                "cross-namespace-services",
 	"tls-secret":              "cross-namespace-secrets-crt",
 	"gateway-certref":         "cross-namespace-secrets-crt",
+	"gateway-backendref":      "cross-namespace-services",
 }
 
 var c09Keys = []string{"cross-namespace-secrets-ca", "cross-namespace-secrets-crt", "cross-namespace-secrets-passwd", "cross-namespace-services"}
@@ -81,7 +82,12 @@ func genC09(t *rapid.T) C09Case {
 			c.Settings[k] = v
 		}
 	}
-	if c.Site == "auth-url" || c.Site == "gateway-certref" {
+	if c.Site == "gateway-backendref" {
+		// the namespace field is not honoured at all (the Service of that name in the route's own namespace is used):
+		// only "the foreign Service exists or not" is a meaningful pair of worlds, a dangling name changes the local name too
+		c.Relation = "R1"
+	}
+	if c.Site == "auth-url" || c.Site == "gateway-certref" || c.Site == "gateway-backendref" {
 		c.Form = "plain"
 	}
 	np := rapid.SampledFrom([]int{0, 0, 1, 2}).Draw(t, "nprior")
@@ -142,7 +148,7 @@ func c09World(c C09Case, variant string) []*world.Obj {
 	}
 	foreignName := map[string]string{
 		"auth-tls-secret": "ca1", "secure-verify-ca-secret": "ca1", "secure-crt-secret": "t1", "auth-secret": "pw", "auth-url": "s2",
-		"tls-secret": "t1", "gateway-certref": "t1",
+		"tls-secret": "t1", "gateway-certref": "t1", "gateway-backendref": "s2",
 	}[c.Site]
 	foreign := map[string]*world.Obj{
 		"ca1": {Kind: world.KSecret, NS: ow, Name: "ca1", SecretKind: "ca", Cert: 1},
@@ -207,6 +213,16 @@ func c09World(c C09Case, variant string) []*world.Obj {
 				Parents: []world.ParentRef{{Name: "gw"}}, Hostnames: []string{"hg.local"},
 				Rules: []world.RouteRule{{Matches: []world.Match{{Type: "PathPrefix", Value: "/"}}, Backends: []world.BackRef{{Name: "s1", Port: ip(80)}}}}}})
 	}
+	if c.Site == "gateway-backendref" {
+		// an HTTPRoute of namespace a whose backendRef names, with the optional namespace field, a Service of namespace b
+		objs = append(objs,
+			&world.Obj{Kind: world.KGatewayClass, Name: "ours", Controller: world.ControllerName},
+			&world.Obj{Kind: world.KGateway, NS: rd, Name: "gw", GW: &world.GatewaySpec{Class: "ours", Listeners: []world.Listener{
+				{Name: "http", Hostname: sp("hg.local"), Port: 80, Protocol: "HTTP", From: "Same"}}}},
+			&world.Obj{Kind: world.KHTTPRoute, NS: rd, Name: "rt", Created: 2, RT: &world.RouteSpec{
+				Parents: []world.ParentRef{{Name: "gw"}}, Hostnames: []string{"hg.local"},
+				Rules: []world.RouteRule{{Matches: []world.Match{{Type: "PathPrefix", Value: "/"}}, Backends: []world.BackRef{{Name: name, Namespace: ow, Port: ip(80)}}}}}})
+	}
 	if c.OnService && c.Site != "auth-tls-secret" { // auth-tls is host scoped: ingress only
 		for _, o := range objs {
 			if o.Kind == world.KService && o.NS == rd && o.Name == "s1" {
@@ -216,7 +232,7 @@ func c09World(c C09Case, variant string) []*world.Obj {
 	} else {
 		ia.Ann = ann
 	}
-	if c.Site == "auth-url" && variant == "absent" {
+	if (c.Site == "auth-url" || c.Site == "gateway-backendref") && variant == "absent" {
 		// the foreign object of this site is the Service b/s2 (and its endpoints)
 		var keep []*world.Obj
 		for _, o := range objs {
@@ -234,7 +250,7 @@ func ip(i int) *int { return &i }
 
 func c09Run(c C09Case, variant string) (*simResult, error) {
 	objs := c09World(c, variant)
-	s, steps, err := freshSim(ctlsim.Params{AllowCrossNS: c.AllowCLI, Shards: c.Shards, Gateway: c.Site == "gateway-certref"}, objs)
+	s, steps, err := freshSim(ctlsim.Params{AllowCrossNS: c.AllowCLI, Shards: c.Shards, Gateway: c.Site == "gateway-certref" || c.Site == "gateway-backendref"}, objs)
 	if err != nil {
 		return nil, err
 	}
@@ -280,6 +296,9 @@ func c09Run(c C09Case, variant string) (*simResult, error) {
 	if c.Site == "gateway-certref" {
 		reqs = append(reqs, hapcfg.Request{Host: "hg.local", Path: "/", HTTPS: true, SNI: "hg.local"}, hapcfg.Request{Host: "hg.local", Path: "/"})
 		snis = append(snis, "hg.local")
+	}
+	if c.Site == "gateway-backendref" {
+		reqs = append(reqs, hapcfg.Request{Host: "hg.local", Path: "/"})
 	}
 	nf, _ := simNF(s, reqs, snis)
 	r := &simResult{nf: nf, files: map[string]string{}}
